@@ -528,6 +528,108 @@ def _iter_zip(eng, st, fr, t, args, dest, target):
     return ('iter', 'zip', a, b)
 
 
+@model('std::iter::from_fn')
+def _iter_from_fn(eng, st, fr, t, args, dest, target):
+    return ('iter', 'from_fn', args[0])
+
+
+EXTEND_UNROLL = 4
+
+
+def _extend(eng, st, fr, t, args, dest, target):
+    """Extend::extend(&mut collection, iterable) for Vec and maps"""
+    r, p = ptr_of(eng, st, args[0])
+    coll = eng.force(st, eng.load(st, r, p))
+    it = eng.force(st, args[1])
+    if it[0] in ('vec', 'array'):
+        it = ('iter', 'val', it)
+    is_map = coll[0] in ('map', 'mapsum')
+
+    def add(st, v):
+        cur = eng.force(st, eng.load(st, r, p))
+        if is_map:
+            kv = eng.force(st, v)
+            if kv[0] != 'tuple' or len(kv[1]) != 2:
+                raise Unmodelled('extend: item is not a pair')
+            k = eng.force(st, kv[1][0])
+            h = eng.hooks.get('map_insert')
+            if h:
+                h(eng, st, st.frames[-1], t, (r, p), k, kv[1][1])
+            eng.store(st, r, p, map_put(as_map(eng, st, cur), k, kv[1][1]))
+        else:
+            h = eng.hooks.get('vec_push')
+            if h:
+                h(eng, st, st.frames[-1], t, (r, p), v)
+            if cur[0] == 'vec':
+                eng.store(st, r, p, ('vec', cur[1] + (v,)))
+            else:
+                eng.store(st, r, p, ('vecsum', cur, None, v))
+
+    if it[0] == 'iter' and it[1] == 'from_fn':
+        # the generator closure is called until it returns None; the first calls are followed explicitly
+        f = it[2]
+        fref = mk_ref(eng.temp(st, f), ()) if not (isinstance(f, tuple) and f and f[0] == 'ref') else f
+
+        def step(st, i):
+            def cont(st, fr2, dest_, target_, rv, i=i):
+                vn, v = variant_of(eng, st, rv, OPT)
+                if vn != 'Some':
+                    eng.finish_call(st, fr2, dest, target, UNIT)
+                    return
+                add(st, payload(eng, st, v, 'Some'))
+                if i + 1 >= EXTEND_UNROLL:
+                    eng.incomplete.append(('extend-unroll', fr.body.path, fr.block))
+                    eng.event(st, 'incomplete', what='generator followed for its first calls only', fn=fr.body.path)
+                    eng.finish_call(st, fr2, dest, target, UNIT)
+                    return
+                step(st, i + 1)
+            eng.call_callable(st, fref, [], ('seq', dest, target, cont))
+        step(st, 0)
+        return DEFER
+    items, fns, base = iter_plan(eng, st, it)
+    if items is not None:
+        def on_item(st, v):
+            add(st, v)
+            return None
+        return run_pipeline(eng, st, dest, target, items, fns, on_item, lambda: UNIT)
+    if not (isinstance(base, tuple) and base and base[0] == 'iter'):
+        raise Unmodelled('extend from an unknown source')
+    # symbolic source: one generic element
+    pit = eng.purify(st, base)
+    lid = ('extend', fr.body.path, fr.block)
+
+    def apply_sym(st, j, val):
+        if j >= len(fns):
+            cur = eng.force(st, eng.load(st, r, p))
+            if is_map:
+                kv = eng.force(st, val)
+                if kv[0] != 'tuple' or len(kv[1]) != 2:
+                    raise Unmodelled('extend: item is not a pair')
+                k = eng.force(st, kv[1][0])
+                h = eng.hooks.get('map_insert')
+                if h:
+                    h(eng, st, st.frames[-1], t, (r, p), k, kv[1][1])
+                eng.store(st, r, p, ('mapsum', cur, lid, ('map', None, ((k, kv[1][1]),))))
+            else:
+                h = eng.hooks.get('vec_push')
+                if h:
+                    h(eng, st, st.frames[-1], t, (r, p), val)
+                eng.store(st, r, p, ('vecsum', cur, lid, val))
+            eng.finish_call(st, st.frames[-1], dest, target, UNIT)
+            return
+
+        def cont(st, fr2, dest_, target_, rv, j=j):
+            apply_sym(st, j + 1, rv)
+        eng.call_callable(st, fns[j], [val], ('seq', dest, target, cont))
+    apply_sym(st, 0, ('iterval', lid, pit))
+    return DEFER
+
+
+for _n in ('<std::vec::Vec<T, A> as std::iter::Extend<T>>::extend', '<std::collections::BTreeMap<K, V, A> as std::iter::Extend<(K, V)>>::extend',
+           '<std::collections::HashMap<K, V, S, A> as std::iter::Extend<(K, V)>>::extend', 'std::iter::Extend::extend'):
+    MODELS[_n] = _extend
+
+
 @model('std::iter::Iterator::filter')
 def _iter_filter(eng, st, fr, t, args, dest, target):
     """over a known sequence the predicate is evaluated for every item now (it is assumed pure); the result iterates
@@ -717,6 +819,32 @@ for _n in ('<std::iter::Take<I> as std::iter::Iterator>::next',
 @model('std::cell::RefCell::<T>::new')
 def _cell_new(eng, st, fr, t, args, dest, target):
     return ('refcell', args[0], 0)
+
+
+@model('std::cell::RefCell::<T>::into_inner')
+def _cell_into_inner(eng, st, fr, t, args, dest, target):
+    cell = eng.force(st, args[0])
+    if cell[0] == 'refcell':
+        return cell[1]
+    return ('app', 'into_inner', (eng.purify(st, cell),))
+
+
+@model('std::cell::RefCell::<T>::get_mut')
+def _cell_get_mut(eng, st, fr, t, args, dest, target):
+    r, p = ptr_of(eng, st, args[0])
+    return mk_ref(r, p + (('cell',),))
+
+
+@model('std::cell::RefCell::<T>::replace')
+def _cell_replace(eng, st, fr, t, args, dest, target):
+    r, p = ptr_of(eng, st, args[0])
+    cell = eng.force(st, eng.load(st, r, p))
+    if cell[0] == 'refcell':
+        if cell[2] != 0:
+            raise PathEnd('panic', ('already-borrowed', 'replace', fr.body.path, t.get('span')))
+        eng.store(st, r, p, ('refcell', args[1], 0))
+        return cell[1]
+    raise Unmodelled('RefCell::replace on an unknown cell')
 
 
 def _borrow(mut):
